@@ -610,8 +610,28 @@ class Interp:
             return self.eval(e.body, env)
         return self.eval(e.orelse, env)
 
+    def _pure_simple(self, n):
+        if isinstance(n, (ast.Name, ast.Constant)):
+            return True
+        if isinstance(n, ast.Attribute):
+            return self._pure_simple(n.value)
+        if isinstance(n, ast.Subscript):
+            return self._pure_simple(n.value) and self._pure_simple(n.slice)
+        if isinstance(n, ast.UnaryOp) and isinstance(n.op, ast.Not):
+            return self._pure_simple(n.operand)
+        return False
+
     def ev_BoolOp(self, e, env):
         isand = isinstance(e.op, ast.And)
+        if all(self._pure_simple(x) for x in e.values):
+            # side-effect-free operands that are all booleans: `a and b` / `a or b` is the logical connective, no path split
+            try:
+                vals = [self.eval(x, env) for x in e.values]
+            except PyRaise:
+                vals = None
+            if vals is not None and all(isinstance(v, (bool, SBool)) for v in vals):
+                ts = [bterm(v) for v in vals]
+                return mkbool(band(*ts) if isand else bor(*ts))
         v = None
         for x in e.values:
             v = self.eval(x, env)
